@@ -41,7 +41,7 @@ func gen(tier string, rng *h.Rng, emit func(string)) {
 	r := bnref.Rn
 	rm1 := new(big.Int).Sub(r, big.NewInt(1))
 	sks := []*big.Int{big.NewInt(0), big.NewInt(1), rm1, big.NewInt(2)}
-	for i := 0; i < pick(5, 40); i++ {
+	for i := 0; i < pick(12, 40); i++ {
 		sks = append(sks, rng.Big(r))
 	}
 	// messages: descriptor strings
@@ -72,7 +72,7 @@ func gen(tier string, rng *h.Rng, emit func(string)) {
 	// verification: valid signatures and their mutations
 	big1MiB := 0
 	for _, sk := range sks {
-		for j := 0; j < pick(2, 6); j++ {
+		for j := 0; j < pick(3, 6); j++ {
 			mi := rng.Intn(len(msgs))
 			if mi == 3 { // the 1 MiB message: a few cases only (the model's Keccak is slow)
 				if big1MiB >= pick(1, 3) {
